@@ -189,10 +189,6 @@ pub fn run_case(b: &BodyCtx, t: &TruncCtx, p: &Params) -> (Observation, Result<(
         limit: p.limit.value(),
         relaxed: b.need > p.limit.value(),
         max_chunk,
-        cuts: &p.cuts,
-        all1: p.all1,
-        pend_mask: p.pend_mask,
-        pend_all: p.pend_all,
         slack: b.slack,
     };
     let verdict = oracle::judge(&obs, &t.parses, &cx);
@@ -457,6 +453,12 @@ fn main() {
         truncated_wellformed += l.truncated_wellformed;
         for (k, v) in l.outcome_kinds {
             *outcome_kinds.entry(k).or_default() += v;
+        }
+        if std::env::var("MPX_WRITE_ALL_REPLAYS").is_ok() {
+            // maintenance aid: also write replay files for violations that match a known finding
+            for v in l.violations.values() {
+                mc_core::report::write_replay(v);
+            }
         }
         rep.add_all(l.violations.into_values());
     }
